@@ -4,3 +4,4 @@ pub mod c11;
 pub mod codec;
 pub mod c09;
 pub mod c13;
+pub mod c18;
